@@ -76,6 +76,77 @@ def writer_part(ctx: Ctx, cases: list[dict[str, Any]]) -> None:
             break
 
 
+def gen_spec(r: Any, depth: int = 0) -> dict[str, Any]:
+    """a random PUML graph description: mostly forward edges over a random node list (a DAG with one or several
+    roots, unreachable parts, operator nodes used out of place), sometimes a back edge (a cycle: the writer raises)"""
+    n = r.choice([0, 1, 2, 3, 4, 5, 6, 8, 10])
+    nodes: list[Any] = []
+    for _ in range(n):
+        k = r.random()
+        if k < 0.4:
+            nodes.append(["ev", r.choice(["A", "B", "C", "a b", ":x;", "repeat", ""]), r.random() < 0.2])
+        elif k < 0.8:
+            pos = r.choice(["START", "START", "PATH", "END", "END"])
+            op = r.choice(["XOR", "AND", "OR", "LOOP"])
+            if pos == "PATH" and op == "LOOP":
+                op = "XOR"
+            nodes.append(["oper", pos, op])
+        elif k < 0.9 or depth >= 2:
+            nodes.append(["kill"])
+        else:
+            nodes.append(["sub", r.random() < 0.7, gen_spec(r, depth + 1), r.random() < 0.3])
+    adj: list[list[int]] = [[] for _ in range(n)]
+    dens = r.choice([0.2, 0.35, 0.6])
+    for u in range(n):
+        for v in r.sample(range(n), n):
+            if v > u and r.random() < dens and v not in adj[u]:
+                adj[u].append(v)
+    if n >= 2 and r.random() < 0.08:
+        u = r.randrange(1, n)
+        v = r.randrange(0, u)
+        if v not in adj[u]:
+            adj[u].append(v)
+    return {"nodes": nodes, "adj": adj, "name": r.choice(["wf", "a \"b\"", ""]), "tab": r.choice([4, 4, 4, 2, 1, 0, 8])}
+
+
+def writer_model_part(ctx: Ctx, cases: list[dict[str, Any]], n_random: int) -> None:
+    """the Lean model of the writer (`O2P.Writer.writePumlString`: topological head, depth-first successors, reversed
+    ordering with PATH nodes, indentation table read from the translated OPERATOR_NODE_PUML_MAP) against
+    `PUMLGraph.write_puml_string`, character by character, on (1) every PUML graph the learner handed to the writer in
+    this run, (2) the graphs built from the block structures of the generated definitions, (3) random graph
+    descriptions (several roots, unreachable nodes, misplaced operator nodes, nested sub graphs, cycles -> both raise)"""
+    items: list[tuple[str, Any, Any]] = []       # (origin, graph export, real result)
+    for c in cases:
+        w = c.get("learn", {}).get("written")
+        if w:
+            items.append(("learner", {"graph": w["graph"], "name": w["name"], "tab": w["tab"]}, {"text": w["text"]}))
+    blks = [c["blk"] for c in cases if c["kind"] != "corpus" and writable(c["blk"])][: (300 if ctx.tier == "quick" else 3000)]
+    if blks:
+        rp = pvlib.run_requests([{"op": "write_blk", "blks": blks, "hash_seed": 0, "timeout": 300}])[0]
+        for r in rp.get("results", []):
+            if "graph" in r:
+                items.append(("blocks", {"graph": r["graph"], "name": "wf", "tab": 4}, {"text": r["text"]}))
+    specs = [gen_spec(ctx.rng) for _ in range(n_random)]
+    rp = pvlib.run_requests([{"op": "write_spec", "specs": specs, "hash_seed": 0, "timeout": 300}])[0]
+    if "error" in rp:
+        ctx.broken_ties.append(f"writer model: worker failed: {rp['error'][:200]}")
+    for sp, r in zip(specs, rp.get("results", [])):
+        if "graph" in r:
+            items.append(("random", {"graph": r["graph"], "name": sp["name"], "tab": sp["tab"]}, r))
+    items = [it for it in items if "export_error" not in it[1]["graph"] and "unsupported" not in json.dumps(it[1]["graph"])]
+    reps = pvlib.lean([{"op": "wr.write", **it[1]} for it in items])
+    for (origin, req, real), lr in zip(items, reps):
+        ctx.tick("writer_model_" + origin)
+        if "raises" in real:
+            ctx.tick("writer_model_real_raises")
+            if not lr.get("raises"):
+                ctx.violation(f"correspondence: write_puml_string raises ({real['raises'][:80]}) where the Lean writer model prints a text",
+                              {"input": req, "model": lr}, key=("writer-model", req), concrete=False)
+        elif lr.get("text") != real["text"]:
+            ctx.violation(f"correspondence: the Lean writer model's text differs from write_puml_string's ({origin} graph)",
+                          {"input": req, "real": real["text"], "model": lr}, key=("writer-model", req), concrete=False)
+
+
 def run(ctx: Ctx) -> None:
     ctx.prove(["O2P.Props.C05"], THEOREMS)
     if ctx.tier == "thorough":
@@ -90,7 +161,8 @@ def run(ctx: Ctx) -> None:
         "a fork, or several start events"
     )
     writer_part(ctx, cases)
-    lc.learn_all(ctx, cases)
+    lc.learn_all(ctx, cases, want_graph=True)
+    writer_model_part(ctx, cases, 400 if quick else 6000)
     lc.judge_all(cases, want_subset=False)
     for c in cases:
         if ctx.too_many():
